@@ -1,0 +1,36 @@
+//go:build verif
+
+package build
+
+import (
+	"archive/tar"
+	"context"
+
+	apkfs "chainguard.dev/apko/pkg/apk/fs"
+	"chainguard.dev/apko/pkg/build/types"
+	"chainguard.dev/apko/pkg/options"
+	"chainguard.dev/apko/pkg/passwd"
+)
+
+// Wrappers exposing unexported functions to the verification harness
+// (build tag verif only; C13).
+
+// VerifMutateAccounts exposes mutateAccounts.
+func VerifMutateAccounts(fsys apkfs.FullFS, ic *types.ImageConfiguration) error {
+	return mutateAccounts(fsys, ic)
+}
+
+// VerifMutatePaths exposes mutatePaths.
+func VerifMutatePaths(fsys apkfs.FullFS, o *options.Options, ic *types.ImageConfiguration) error {
+	return mutatePaths(fsys, o, ic)
+}
+
+// VerifUserToUserEntry exposes userToUserEntry.
+func VerifUserToUserEntry(u types.User) passwd.UserEntry {
+	return userToUserEntry(u)
+}
+
+// VerifWriteTar exposes writeTar (the layer serialiser).
+func VerifWriteTar(ctx context.Context, tw *tar.Writer, fsys apkfs.FullFS) error {
+	return writeTar(ctx, tw, fsys)
+}
